@@ -377,8 +377,8 @@ def check_1d_index(rec: core.Recorder, *, op: str, pre: dict, index, result, exc
             fail("invalid index expression was not refused", ["not_refused"])
         return
     if exc is not None:
-        if isinstance(index, slice) and index.step is not None:
-            return  # slices with an explicit step may be refused (not demanded by the statement)
+        if isinstance(index, slice) and index.step == 0:
+            return  # a zero step is no selection at all
         if isinstance(index, slice) and len(range(*index.indices(n))) == 0:
             return  # empty selections may be refused
         if isinstance(index, np.ndarray) and (index.size == 0 or (index.dtype == bool and not index.any())):
